@@ -241,3 +241,5 @@ func JSKey(nwkKey Key, typ byte, devEUILE [8]byte) Key {
 	copy(b[1:9], devEUILE[:])
 	return Key(AESEncryptBlock(nwkKey, b))
 }
+
+func newAES(k []byte) (cipher.Block, error) { return aes.NewCipher(k) }
